@@ -57,16 +57,22 @@ def _empty_test(test, v):
     return None
 
 
-def _streaming_digest_ok(ctx, h, path_param):
+def _streaming_digest_ok(ctx, h, path_param, result=None):
     """Does helper function `h` return a digest over the WHOLE content of the file named by its parameter?
     Returns (ok, reason). Rule: every value obtained from <file>.read(...) reaches <hash>.update(value) on every path
     before it is overwritten or the function ends, unless a branch has established that the value is empty."""
     from ..cfg import EXIT
     cfg = C.cfg_of(h)
-    rets = [r for r in ast.walk(h.node) if isinstance(r, ast.Return)]
-    if len(rets) != 1 or rets[0].value is None:
-        return None, "helper has %d return statements" % len(rets)
-    rv = rets[0].value
+    if result is None:
+        rets = [r for r in ast.walk(h.node) if isinstance(r, ast.Return)]
+        if len(rets) != 1 or rets[0].value is None:
+            return None, "helper has %d return statements" % len(rets)
+        rv = rets[0].value
+        terminal = EXIT
+    else:
+        # the digest is taken inside `h` itself (e.g. after an extracted helper was expanded in place)
+        rv = result
+        terminal = cfg.node_of(result)
     # one-expression helpers
     one = _digest_expr_ok(U(rv), path_param)
     if one:
@@ -152,8 +158,8 @@ def _streaming_digest_ok(ctx, h, path_param):
         bad = None
         while work and bad is None:
             cur = work.pop()
-            if cur == EXIT:
-                bad = "the end of the function"
+            if cur == EXIT or cur is terminal:
+                bad = "the point where the digest is taken"
                 break
             if id(cur) in seen:
                 continue
@@ -203,6 +209,14 @@ def _content_key(ctx, f, role_text, raw_value):
                 return None, "helper %s takes no path" % h.qname
             ok, why = _streaming_digest_ok(ctx, h, ps[0])
             return ok, "%s: %s" % (h.qname, why)
+    if isinstance(raw_value, ast.Call) and isinstance(raw_value.func, ast.Attribute) and raw_value.func.attr in ("hexdigest", "digest") \
+            and isinstance(raw_value.func.value, ast.Name):
+        paths = [fparam] + [a.targets[0].id for a in ast.walk(f.node) if isinstance(a, ast.Assign) and isinstance(a.targets[0], ast.Name)
+                            and U(a.value) == "Path(%s)" % fparam]
+        for pn in paths:
+            ok, why = _streaming_digest_ok(ctx, f, pn, result=raw_value)
+            if ok is not None:
+                return ok, "%s: %s" % (f.qname, why)
     return None, "cache key `%s` is neither hashlib.<algo>(<file bytes>).hexdigest() nor a helper that could be analysed" % t
 
 
